@@ -1,0 +1,12 @@
+//go:build verif
+
+package compact
+
+import "sync/atomic"
+
+// VerifPause, when set by the verification harness, makes background
+// compaction cycles return immediately so that maintenance only happens where a
+// generated history places it.
+var VerifPause atomic.Bool
+
+func verifPaused() bool { return VerifPause.Load() }
